@@ -195,6 +195,18 @@ def rule_order(ctx: Ctx) -> None:
         and A.dotted(sig_stmt.targets[0].value) == q_var and A.const_value(sig_stmt.targets[0].slice) == "signature"
     ctx.check(okstore, "C16.2", "signature travels in the query string under 'signature'", mk, sig_stmt, "qs['signature'] = ...",
               "signature is not stored as the 'signature' query parameter")
+    # a signed map is only ever sent: it is never handed to the signer (or to make_request, which signs) a second time -- its 'signature'
+    # entry would be signed as if it were a parameter and the request would go out with timestamp=NEW&signature=H(...&signature=OLD)
+    from .. import norm as N
+    signed = N.aliases(mk, q_var) if q_var and "." not in q_var else set()
+    again = [c for c in A.func_calls(mk, shallow=False) if c is not sc and ((A.call_name(c) or "").endswith("get_signature") or (A.call_name(c) or "").endswith(".make_request"))
+             and any(isinstance(k.value, ast.Name) and k.value.id in signed for k in c.keywords if k.arg == "qs_params")
+             and A.seq(c) > A.seq(sc)]
+    again += [c for c in A.func_calls(mk, shallow=False) if c is not sc and (A.call_name(c) or "").endswith(".make_request")
+              and any(isinstance(a, ast.Name) and a.id in signed for a in c.args) and A.seq(c) > A.seq(sc) and c not in again]
+    ctx.check(not again, "C16.2", "a signed parameter map is never signed again", mk, again[0] if again else sc, "signed map flows only to the transport",
+              f"'{ast.unparse(again[0])[:80] if again else ''}' passes the already signed map ({sorted(signed)}) to be signed again: the old signature is "
+              "signed as a parameter and the request that is sent does not verify", key_text="no re-signing")
     # timestamp from the clock, stored before signing
     ts = [s for s in A.stores(mk) if isinstance(s.target, ast.Subscript) and A.dotted(s.target.value) == q_var
           and A.const_value(s.target.slice) == "timestamp"]
